@@ -60,13 +60,17 @@ def run(tier, seed, jobs):
     plans = [{"cfg_ref": ("vf.props.c03", "cfg", [3]), "alphabet": alphabet(tier), "depth": 3 if tier == "quick" else 4, "label": "INBOX(3)"}]
     if tier != "quick":
         plans.append({"cfg_ref": ("vf.props.c03", "cfg", [4]), "alphabet": alphabet(tier), "depth": 3, "label": "INBOX(4)"})
+    core = [{"s": "A", "op": "del", "set": "1"}, {"s": "A", "op": "del", "set": "*"}, {"s": "A", "op": "append", "m": "INBOX"},
+            {"s": "env", "op": "deliver", "m": "INBOX"}, {"s": "env", "op": "poll", "dt": 21.0},
+            {"s": "B", "op": "fetch", "set": "1:*", "items": SUBJ, "uid": True}]
+    plans.append({"cfg_ref": ("vf.props.c03", "cfg", [3]), "alphabet": core, "depth": 5 if tier == "quick" else 7, "label": "INBOX(3), core alphabet, deep"})
     res = run_h(PROP, RULES, plans, ("C03",), jobs, seed,
                 ["sessions A (mutator) and B (prober) both selected on INBOX(3 or 4); pack threshold lowered to 2 messages",
                  "expunge subsets are the 6 listed set shapes per state (composed over the history they reach every subset)",
                  "INTERNALDATE compared exactly for messages whose date was supplied (APPEND date-time / delivery agent utime)",
                  "schedule part: UID FETCH / FETCH of one session overlapping EXPUNGE / MOVE / CLOSE of another (scenarios shared with C10), every schedule with "
                  "<=2 (thorough 3) deviations: what a fetch returns for a UID is that UID's message in some sequential order of the two commands"],
-                time_budget=85 if tier == "quick" else 900)
+                time_budget=170 if tier == "quick" else 900)
     from ..explore import sched
 
     per = []
